@@ -1,9 +1,12 @@
 import DoitModel.Proofs.CleanSpec
 import DoitModel.Proofs.CleanEffects
+import DoitModel.Proofs.CleanFuel
+import DoitModel.Proofs.CleanFrame
+import DoitModel.Proofs.CleanMon
 /-! # C14 — clean acts on exactly the selected tasks, once, dependents first
 
 Property theorems only (model: `Model/Clean.lean`; helpers: `Proofs/CleanFlat.lean`, `CleanOrder.lean`,
-`CleanBuild.lean`, `CleanSpec.lean`, `CleanEffects.lean`).  Quantification: every task table, every command
+`CleanBuild.lean`, `CleanFuel.lean`, `CleanSpec.lean`, `CleanEffects.lean`, `CleanFrame.lean`, `CleanMon.lean`).  Quantification: every task table, every command
 line (positional arguments, patterns, default_tasks, the four flags), every world (files, directories, DB).
 
 `plan tbl r = .ok p` : the command was accepted; `p.order` is the list of tasks handed to `Task.clean`.
@@ -30,12 +33,24 @@ theorem cyclic_example :
 theorem dedup_redundant (ns : Nodes) (h : (keys ns).Nodup) : dedup [] (flat ns).out = (flat ns).out :=
   dedup_of_nodup _ _ ((flat_spec ns).2.nodup_iff.2 h) (fun _ _ hm => by simp at hm)
 
+/-- **fuel_suffices** — when every task_dep / setup names a task (`wfB`; `TaskControl._check_dep_names` enforces
+    it) the recursion of `build_nodes_with_deps` never exhausts the model's fuel (number of tasks + 1), for any
+    accepted command line; together with `flat_terminates` no theorem below rests on a fuel artefact -/
+theorem build_fuel_suffices (tbl : Table) (r : Req) (base : List Name)
+    (hwf : wfB tbl = true) (hb : cleanList tbl r = .ok base) : BuildFuelOk tbl r base := by
+  unfold BuildFuelOk buildTree
+  by_cases hd : withDeps r = true
+  · simp only [hd, if_true]
+    exact buildAll_fuel (depsOf tbl) tbl.length (wfB_sound tbl hwf) base (cleanList_lt tbl r base hb)
+  · simp [hd]
+
 /-- **flat_perm** — the tasks handed to `Task.clean` are duplicate-free and are exactly the declarative clean
     set: the named / default / all tasks; with dependencies (`--clean-dep`, `--clean-all`, or no task named)
     everything reachable over task_dep and setup; otherwise plus the direct sub-tasks of the named tasks -/
 theorem flat_perm (tbl : Table) (r : Req) (base : List Name) (p : Plan)
-    (hb : cleanList tbl r = .ok base) (hp : plan tbl r = .ok p) (hf : BuildFuelOk tbl r base) :
+    (hwf : wfB tbl = true) (hb : cleanList tbl r = .ok base) (hp : plan tbl r = .ok p) :
     p.order.Nodup ∧ ∀ x, x ∈ p.order ↔ InCleanSet tbl r base x := by
+  have hf := build_fuel_suffices tbl r base hwf hb
   have hnd := tree_nodup hf
   have hperm := (flat_spec (buildTree tbl r base).nodes).2
   have hord : p.order = (flat (buildTree tbl r base).nodes).out := by
@@ -61,9 +76,10 @@ theorem flat_perm (tbl : Table) (r : Req) (base : List Name) (p : Plan)
 /-- **dependents_first** — when dependencies are included and task_dep + setup is acyclic, a task that
     depends on another emitted task is cleaned before it -/
 theorem dependents_first (tbl : Table) (r : Req) (base : List Name) (p : Plan)
-    (hb : cleanList tbl r = .ok base) (hp : plan tbl r = .ok p) (hf : BuildFuelOk tbl r base)
+    (hwf : wfB tbl = true) (hb : cleanList tbl r = .ok base) (hp : plan tbl r = .ok p)
     (hdeps : withDeps r = true) (hac : acyclicB tbl = true) :
     ∀ a b, b ∈ depsOf tbl a → a ∈ p.order → b ∈ p.order → p.order.idxOf a < p.order.idxOf b := by
+  have hf := build_fuel_suffices tbl r base hwf hb
   have hnd := tree_nodup hf
   have hperm := (flat_spec (buildTree tbl r base).nodes).2
   have hord : p.order = (flat (buildTree tbl r base).nodes).out := by
@@ -124,6 +140,51 @@ theorem forget_exact (tbl : Table) (r : Req) (w : World) (res : Result) (h : run
     intro x
     exact cleanTasks_db tbl r.dryrun r.forget p.order (w, []) x
 
+/-- **targets_frame** — files and directories after the command: nothing appears; whatever disappeared is a
+    target of a cleaned `clean: True` task; and (no dry run) every target file of such a task is gone -/
+theorem targets_frame (tbl : Table) (r : Req) (w : World) (res : Result) (h : run tbl r w = .ok res) :
+    (∀ q, q ∈ res.world.files → q ∈ w.files) ∧
+    (∀ q, q ∈ w.files → q ∈ res.world.files ∨ q ∈ cleanedTargets tbl res.order) ∧
+    (∀ q, q ∈ res.world.dirs → q ∈ w.dirs) ∧
+    (∀ q, q ∈ w.dirs → q ∈ res.world.dirs ∨ q ∈ cleanedTargets tbl res.order) ∧
+    (r.dryrun = false → ∀ q, q ∈ cleanedTargets tbl res.order → q ∉ res.world.files) := by
+  unfold run at h
+  cases hp : plan tbl r with
+  | error e => simp [hp] at h
+  | ok p =>
+    simp only [hp] at h
+    cases h
+    have hfr := cleanTasks_frame tbl r.dryrun r.forget p.order w
+    have hset : cleanedTargets tbl p.order = p.order.flatMap (rmSet tbl) := by
+      unfold cleanedTargets rmSet
+      rfl
+    rw [hset]
+    refine ⟨hfr.fsub, hfr.fonly, hfr.dsub, hfr.donly, ?_⟩
+    intro hd q hq
+    simp only [List.mem_flatMap] at hq
+    obtain ⟨t, ht, hqt⟩ := hq
+    simp only [hd]
+    exact cleanTasks_removes tbl r.forget p.order w t q ht hqt
+
+/-- **monitor_sound** — the decidable predicate the driver evaluates on the implementation's observed order
+    (`monitorOrder`) is the statement of `flat_perm` + `dependents_first`, restricted to the tasks whose clean
+    behaviour can be seen: if it answers `true`, the observed list is duplicate-free, is exactly the visible part
+    of the declarative clean set, and (dependencies included, acyclic) puts dependents first -/
+theorem monitor_sound (tbl : Table) (r : Req) (base : List Name) (w : World) (o : List Name)
+    (h : monitorOrder tbl r base w o = true) :
+    o.Nodup ∧ (∀ x, x ∈ o ↔ InCleanSet tbl r base x ∧ visible tbl w x = true) ∧
+    (withDeps r = true → acyclicB tbl = true →
+      ∀ a b, b ∈ depsOf tbl a → a ∈ o → b ∈ o → o.idxOf a < o.idxOf b) := by
+  unfold monitorOrder at h
+  simp only [Bool.and_eq_true, decide_eq_true_eq, subset_iff, List.mem_filter] at h
+  obtain ⟨⟨⟨⟨hc, hn⟩, h1⟩, h2⟩, h3⟩ := h
+  refine ⟨hn, fun x => ?_, ?_⟩
+  · rw [← mem_declSet_iff tbl r base hc x]
+    exact ⟨h1 x, h2 x⟩
+  · intro hd ha a b hab hao hbo
+    simp only [hd, ha, Bool.and_self, Bool.not_true, Bool.false_or] at h3
+    exact (depFirstB_iff _ _).1 h3 a hao b hab hbo
+
 /-! ## non-vacuity: concrete inputs that meet the hypotheses and reach the interesting states -/
 
 /-- a diamond with a shared dependency, defined in an order unrelated to the dependencies:
@@ -135,7 +196,7 @@ def diamond : Table :=
 def diamondReq : Req := ⟨[['t', '0']], none, true, false, false, true⟩
 
 example : (cleanList diamond diamondReq).toOption = some [0] ∧ withDeps diamondReq = true ∧ acyclicB diamond = true ∧
-    BuildFuelOk diamond diamondReq [0] ∧
+    wfB diamond = true ∧
     (match plan diamond diamondReq with | .ok p => some p.order | .error _ => none) = some [0, 3, 2, 1] := by
   decide
 
